@@ -141,6 +141,31 @@ pub enum Sink {
     /// insert_all / add_to_graph into a graph whose term index holds `cap` terms
     InsertAll5,
     AddToGraph3,
+    /// the N-Triples serializer writing to a target that fails while the j-th statement is being written (0: never)
+    NtSerializer(usize),
+}
+
+/// a target that accepts j - 1 complete lines and the first 20 bytes of the j-th, then fails with the payload 2000 + j
+struct FailingTarget {
+    got: Rc<std::cell::RefCell<Vec<u8>>>,
+    j: usize,
+}
+impl std::io::Write for FailingTarget {
+    fn write(&mut self, data: &[u8]) -> std::io::Result<usize> {
+        let mut g = self.got.borrow_mut();
+        for (n, b) in data.iter().enumerate() {
+            let lines = g.iter().filter(|c| **c == b'\n').count();
+            let in_line = g.len() - g.iter().rposition(|c| *c == b'\n').map_or(0, |p| p + 1);
+            if self.j != 0 && lines == self.j - 1 && in_line >= 20 {
+                return if n > 0 { Ok(n) } else { Err(std::io::Error::new(std::io::ErrorKind::Other, format!("{}", 2000 + self.j))) };
+            }
+            g.push(*b);
+        }
+        Ok(data.len())
+    }
+    fn flush(&mut self) -> std::io::Result<()> {
+        Ok(())
+    }
 }
 
 pub fn run_tri<S: TripleSource>(mut s: S, sink: &Sink) -> Outcome {
@@ -207,6 +232,22 @@ pub fn run_tri<S: TripleSource>(mut s: S, sink: &Sink) -> Outcome {
             };
             let (result, payload) = classify(r2, pa, |_| json!(-2));
             Outcome { delivered: Some(v), steps: None, result, payload, count, alt }
+        }
+        Sink::NtSerializer(j) => {
+            use sophia_api::serializer::TripleSerializer;
+            let got = Rc::new(std::cell::RefCell::new(Vec::<u8>::new()));
+            let r = {
+                let mut ser = sophia_turtle::serializer::nt::NtSerializer::new(FailingTarget { got: got.clone(), j: *j });
+                ser.serialize_triples(s).map(|_| ())
+            };
+            // what the target holds: complete statements, and the statement that was being written when it failed
+            let text = String::from_utf8_lossy(&got.borrow()).to_string();
+            let delivered: Vec<u32> = text
+                .split('\n')
+                .filter_map(|line| line.strip_prefix("<http://ex/s").and_then(|x| x.split('>').next()).and_then(|x| x.parse::<u32>().ok()))
+                .collect();
+            let (result, payload) = classify(r, pa, |e| json!(e.to_string().parse::<u32>().unwrap_or(0)));
+            Outcome { delivered: Some(delivered), steps: None, result, payload, count: None, alt: vec![] }
         }
         Sink::AddToGraph3 => {
             let mut g: GenericFastGraph<SimpleTermIndex<Tiny3>> = Default::default();
@@ -286,6 +327,24 @@ fn turtle_doc(src: &[u32], k: usize, inside: bool) -> String {
     d
 }
 
+/// RDF/XML: one rdf:Description per item; the fault is an element whose attributes yield, in ONE parse step, a triple with an
+/// invalid IRI (damaged namespace) followed - when `inside` - by a valid one: nothing of that step may be delivered
+fn xml_doc(src: &[u32], k: usize, inside: bool) -> String {
+    let mut d = String::from("<?xml version=\"1.0\"?>\n<rdf:RDF xmlns:rdf=\"http://www.w3.org/1999/02/22-rdf-syntax-ns#\" xmlns:e=\"http://ex/\" xmlns:b=\"http>//bad/\">\n");
+    let bad = if inside { "<rdf:Description rdf:about=\"http://ex/sX\" b:q=\"v\" e:r=\"w\"/>\n" } else { "<rdf:Description rdf:about=\"http://ex/sX\"><b:q>v</b:q></rdf:Description>\n" };
+    for (i, v) in src.iter().enumerate() {
+        if k == i + 1 {
+            d.push_str(bad);
+        }
+        d.push_str(&format!("<rdf:Description rdf:about=\"http://ex/s{v}\"><e:p rdf:resource=\"http://ex/o\"/></rdf:Description>\n"));
+    }
+    if k == src.len() + 1 {
+        d.push_str(bad);
+    }
+    d.push_str("</rdf:RDF>\n");
+    d
+}
+
 fn turtle_doc_rest(src: &[u32], from: usize) -> String {
     let mut d = String::new();
     for v in &src[from..] {
@@ -356,7 +415,8 @@ pub fn main(args: &[String]) {
         }
         let depth = rng.below(3);
         let chain: Vec<&str> = (0..depth).map(|_| *rng.pick(&tri_adapters)).collect();
-        let (sink, sinkkind, jj, cap, driver) = match rng.below(8) {
+        let (sink, sinkkind, jj, cap, driver) = match rng.below(10) {
+            8 | 9 => (Sink::NtSerializer(j), "serializer", j, 0, "each"),
             0 | 1 => (Sink::Closure(j, false), "closure", j, 0, "each"),
             2 | 3 => (Sink::Closure(j, true), "closure", j, 0, "some"),
             4 => (Sink::CollectVec, "collect", 0, 0, "each"),
@@ -364,7 +424,7 @@ pub fn main(args: &[String]) {
             6 => (Sink::InsertAll5, "store", 0, 3, "each"),
             _ => (Sink::AddToGraph3, "store", 0, 1, "each"),
         };
-        let srck = rng.below(3);
+        let srck = rng.below(4);
         let inside = rng.chance(1, 2);
         let r = guarded(|| match srck {
             0 => {
@@ -377,10 +437,15 @@ pub fn main(args: &[String]) {
                 let o = dispatch_tri(&chain, sophia_turtle::parser::nt::parse_str(&doc), &sink);
                 ("nt", o, -1)
             }
-            _ => {
+            2 => {
                 let doc = turtle_doc(&src, k, inside);
                 let o = dispatch_tri(&chain, sophia_turtle::parser::turtle::parse_str(&doc), &sink);
                 ("turtle", o, -1)
+            }
+            _ => {
+                let doc = xml_doc(&src, k, inside);
+                let o = dispatch_tri(&chain, sophia_xml::parser::parse_str(&doc), &sink);
+                ("xml", o, -1)
             }
         });
         match r {
